@@ -127,7 +127,9 @@ def perturb(w, r):
 
 
 UNRELATED = (None, True, 0, 1, -1, 2.5, "", "abc", [], [1, "a"], {}, {"a": 1}, {"id": 1, "name": "x"}, b"x",
-             [[1], [2]], {"a": {"b": {"c": 1}}}, float("nan"), float("inf"), 10 ** 20, [None, None, None])
+             [[1], [2]], {"a": {"b": {"c": 1}}}, float("nan"), float("inf"), 10 ** 20, [None, None, None],
+             S.NIL_UUID, S.V1_UUID, [S.V1_UUID], {"id": S.NIL_UUID}, UUID(int=7, version=4), 1.0, 0.0, -0.0, False,
+             [True, 1.0], {"x": 0.0, "y": -0.0}, date(2021, 1, 1), datetime(2021, 1, 1, 0, 0, 0), [b""], {"k": [1.0, True]})
 
 
 def child_pairs(s_sch, v):
